@@ -9,6 +9,8 @@ Driver for C19 (response sink).  Case lines (after the index):
         `ok <iterations> <failed> <hex canonical file> <returned: T (n enc…)…>`
     the file is canonical: what was there after `open` verbatim, then the appended lines — in order when
     there is one worker, sorted when there are several (the real threads interleave as they like).
+  A <existing> <format> <rate> <persist 0|1> <workers> <inputErrors: n resp…>     (CompassApp::run end to end)
+      → `ok <hex canonical file> <number of responses handed back>`
   X <k formats…> <response>      (a Combined sink of k file sinks, one response)
       → `ok <k hex rows…> P <enc response after>` | `panic` | `lock`
 
@@ -214,6 +216,20 @@ def caseP : P String := do
       let sink' := if close then r2.sink.close else r2.sink
       let file := canonFile sink' (workers.length > 1)
       pure s!"ok {sink'.iterations} {r2.failed} {hexOfText file} {returnedOut r2.returned}"
+  | "A" => do
+    -- CompassApp::run end to end: an S case plus the responses of queries that failed input processing
+    let existing ← optOf JsonProto.str
+    let f ← format
+    let rate ← optOf int
+    let persist ← bool
+    let workers ← listOf (listOf JsonProto.json)
+    let inputErrors ← listOf JsonProto.json
+    match build .append f rate (existing.map String.toList) with
+    | .refused => pure "refused"
+    | .badFlushRate c => pure s!"badrate {hexOfText c}"
+    | .ok sink =>
+      let (sink', returned) := appRun floatOps persist sink workers inputErrors (sequentialSchedule workers)
+      pure s!"ok {hexOfText (canonFile sink' (workers.length > 1))} {returned.length}"
   | "X" => do
     let fs ← listOf format
     let r ← JsonProto.json
